@@ -13,7 +13,7 @@
 use linfa::traits::{Fit, Predict, Transformer};
 use linfa::{DatasetBase, Float};
 use linfa_clustering::{KMeans, KMeansInit};
-use linfa_nn::distance::{Distance, L1Dist, L2Dist, LInfDist};
+use linfa_nn::distance::{Distance, L1Dist, L2Dist, LInfDist, LpDist};
 use ndarray::{s, Array1, Array2, ArrayView2, ShapeBuilder};
 use rand::{Error as RandError, RngCore, SeedableRng};
 use rand_xoshiro::Xoshiro256Plus;
@@ -100,7 +100,7 @@ fn f64of<F: Float>(v: F) -> f64 {
 }
 
 /// everything the public API tells about a fitted model, on the training points and on the queries
-fn observe<F: Float, D: Distance<F>>(model: &KMeans<F, D>, lp: &Laid<F>, lq: &Laid<F>, o: &mut vh::serde_json::Map<String, Value>) {
+fn observe<F: Float, D: Distance<F>>(model: &KMeans<F, D>, lp: &Laid<F>, lq: &Laid<F>, pw: i32, o: &mut vh::serde_json::Map<String, Value>) {
     let pts = lp.view();
     let qs = lq.view();
     let cen = model.centroids();
@@ -120,6 +120,8 @@ fn observe<F: Float, D: Distance<F>>(model: &KMeans<F, D>, lp: &Laid<F>, lq: &La
     let tr: Array1<F> = model.transform(&pts);
     o.insert("tr".into(), Value::Array(tr.iter().map(|v| fx(f64of(*v), S)).collect()));
     o.insert("trsum".into(), fx(f64of(tr.sum()), S));
+    // Minkowski metrics return the distance (sum |d|^p)^(1/p): also log its p-th power (pw = 1 otherwise)
+    o.insert("trp".into(), Value::Array(tr.iter().map(|v| fx(f64of(*v).powi(pw), S)).collect()));
     // new observations: predict through a dataset (targets replaced), transform
     let qlab: Vec<i64> = if lq.owned() {
         model.predict(DatasetBase::from(lq.back.clone())).targets().iter().map(|l| *l as i64).collect()
@@ -129,6 +131,7 @@ fn observe<F: Float, D: Distance<F>>(model: &KMeans<F, D>, lp: &Laid<F>, lq: &La
     o.insert("qlab".into(), json!(qlab));
     let qtr: Array1<F> = if lq.owned() { model.transform(&lq.back) } else { model.transform(&qs) };
     o.insert("qtr".into(), Value::Array(qtr.iter().map(|v| fx(f64of(*v), S)).collect()));
+    o.insert("qtrp".into(), Value::Array(qtr.iter().map(|v| fx(f64of(*v).powi(pw), S)).collect()));
     // single-observation form (Ix1)
     let q1: Vec<i64> = qs.outer_iter().map(|r| {
         let l: usize = model.predict(&r);
@@ -136,13 +139,22 @@ fn observe<F: Float, D: Distance<F>>(model: &KMeans<F, D>, lp: &Laid<F>, lq: &La
     }).collect();
     o.insert("qlab1".into(), json!(q1));
     // every fixed-point field is an integer (finite and inside the loggable range)
-    let allnum = ["cen", "tr", "qtr"].iter().all(|k| {
+    let allnum = ["cen", "tr", "qtr", "trp", "qtrp"].iter().all(|k| {
         o[*k].as_array().unwrap().iter().all(|v| match v {
             Value::Array(r) => r.iter().all(|x| x.is_i64()),
             x => x.is_i64(),
         })
     }) && o["inertia"].is_i64() && o["trsum"].is_i64();
     o.insert("num".into(), json!(allnum));
+}
+
+/// exponent of the Minkowski metrics "lp1" / "lp2" / "lp3" (1 for every other metric)
+fn pw_of(inp: &Value) -> i32 {
+    match gets(inp, "metric") {
+        "lp2" => 2,
+        "lp3" => 3,
+        _ => 1,
+    }
 }
 
 fn tol_of<F: Float>(inp: &Value) -> F {
@@ -194,7 +206,7 @@ fn run_traj<F: Float, D: Distance<F>>(inp: &Value, dist: D) -> Vec<Value> {
                 o.insert("ok".into(), json!(true));
                 match guarded(|| {
                     let mut oo = vh::serde_json::Map::new();
-                    observe(&model, &lp, &lq, &mut oo);
+                    observe(&model, &lp, &lq, pw_of(inp), &mut oo);
                     oo
                 }) {
                     Ok(oo) => o.extend(oo),
@@ -253,7 +265,7 @@ fn run_restart<F: Float, D: Distance<F>>(inp: &Value, dist: D) -> Vec<Value> {
             o.insert("r".into(), json!(r));
             match guarded(|| (if lp.owned() { params.fit(&DatasetBase::from(lp.back.clone())) } else { params.fit(&DatasetBase::from(lp.view())) }).map(|model| {
                 let mut oo = vh::serde_json::Map::new();
-                observe(&model, &lp, &lq, &mut oo);
+                observe(&model, &lp, &lq, pw_of(inp), &mut oo);
                 oo
             })) {
                 Err(msg) => {
@@ -284,7 +296,7 @@ fn run_restart<F: Float, D: Distance<F>>(inp: &Value, dist: D) -> Vec<Value> {
         o.insert("r".into(), json!(r));
         match guarded(|| (if lp.owned() { params.fit(&DatasetBase::from(lp.back.clone())) } else { params.fit(&DatasetBase::from(lp.view())) }).map(|model| {
             let mut oo = vh::serde_json::Map::new();
-            observe(&model, &lp, &lq, &mut oo);
+            observe(&model, &lp, &lq, pw_of(inp), &mut oo);
             oo
         })) {
             Err(msg) => {
@@ -329,6 +341,12 @@ fn run(case: &Value) -> Vec<Value> {
         ("f32", "l2") => go!(f32, L2Dist),
         ("f32", "l1") => go!(f32, L1Dist),
         ("f32", "linf") => go!(f32, LInfDist),
+        ("f64", "lp1") => go!(f64, LpDist(1.0f64)),
+        ("f64", "lp2") => go!(f64, LpDist(2.0f64)),
+        ("f64", "lp3") => go!(f64, LpDist(3.0f64)),
+        ("f32", "lp1") => go!(f32, LpDist(1.0f32)),
+        ("f32", "lp2") => go!(f32, LpDist(2.0f32)),
+        ("f32", "lp3") => go!(f32, LpDist(3.0f32)),
         _ => panic!("unknown ft/metric {} {}", ft, metric),
     }
 }
